@@ -59,7 +59,7 @@ def run(prop, tier, seed, t0):
         distinct_sites.add((names.get(c // 10000), site_func(c)))
     for v in res.viol:
         sc = names.get(v['case'] // 10000, '?') if v['case'] >= 0 else '?'
-        if v['key'].startswith(('san:', 'crash:', 'hang:')):
+        if v['key'].startswith(('san:', 'crash:', 'hang:', 'blocked-forever:')):
             v['key'] = '%s:%s' % (v['key'], sc)
         else:
             v['key'] = '%s:%s:%s' % (v['key'], sc, site_func(v['case']))
